@@ -169,6 +169,7 @@ def prepare (fmt : Fmt) (r : Req) : Except Err Prepared :=
         else if fmt == .cose && !r.ctyOK then .error .invalidRequest
         else if !r.ext.all (·.encodable) then .error .invalidRequest
         else if !s.signs then .error .invalidRequest
+        else if fmt == .cose && s.sigLen == 0 then .error .invalidRequest     -- go-cose refuses an empty signature at once (JWS: noticed later)
         else match deliveredChain fmt s with
           | none => .error .invalidRequest                                    -- remote signer returned nil certificates (JWS)
           | some ci =>
